@@ -9,7 +9,7 @@ from ..world import make  # noqa: F401
 LEVEL = 'model_checking'
 RULE = ('a raising handler placed first / middle / last among three handlers; async raise, raise after a pause, sync raise, returned exception object (sync and async); exception '
         'types ValueError, a custom exception with state, RuntimeError, KeyError, a chained exception (raise ... from ...) and TimeoutError raised by the handler itself; placed in the root event, an awaited child, a '
-        'fire-and-forget child or a handler on a forwarded-to bus; serial and parallel_handlers; another event in flight; afterwards main awaits the event and calls '
+        'fire-and-forget child or a handler on a forwarded-to bus; also on an event class with a declared result type; serial and parallel_handlers; another event in flight; afterwards main awaits the event and calls '
         'event_result(raise_if_any=True/False). all schedules <= L deviations. non-trivial = a handler raised/returned an exception while another handler or event was pending; '
         'distinct = distinct recorder traces')
 ASSUMPTIONS = ['identity of exception objects is tracked by the harness (id of the object it raised), not by message text']
@@ -64,6 +64,20 @@ def families(tier):
                         params=dict(pos=pos, kind=kind, typ=typ, place=place, ebus=ebus, epat=epat),
                         scn=dict(buses={b: dict(parallel=par) for b in names}, order=names, handlers=hs, main=main, actors=[],
                                  forwards=[('A', 'B')] if place == 'fwd_bus' else [], settle=3.0)))
+    # the same on an event class that DECLARES a result type (BaseEvent[int]; the other handlers return conforming ints): the raised / returned exception
+    # object is still what is recorded, the type check must not get in its way
+    for pos, kind, typ, par in itertools.product((0, 1, 2), KINDS, ['ValueError', 'Custom', 'TimeoutError'], (False, True)):
+        if par and kind not in ('raise', 'ret_exc'):
+            continue
+        hk, mk = KINDS[kind]
+        hs = []
+        for i in range(3):
+            hs.append(dict(bus='A', pat='T', name=f'h{i}', prog=mk(typ), kind=hk) if i == pos else dict(bus='A', pat='T', name=f'h{i}', prog=[('pause',), ('ret', i)] if i != 1 else [('ret', i)]))
+        hs.append(dict(bus='A', pat='X', name='hxA', prog=[('ret', 0)]))
+        main = [('disp', 'A', 'T', 'late'), ('disp', 'A', 'X', 'ff'), ('await', 'T'), ('result', 'T', False), ('result', 'T', True)]
+        out.append(dict(prop='C11', family='c11.isolation_typed_event', id=f'c11/typed-pos{pos}-{kind}-{typ}-p{int(par)}', cfg=cfg,
+                        params=dict(pos=pos, kind=kind, typ=typ, place='root', ebus='A', epat='T'),
+                        scn=dict(buses={'A': dict(parallel=par)}, order=['A'], handlers=hs, main=main, actors=[], forwards=[], settle=3.0)))
     # on a parallel_handlers bus: a handler fails while its sibling is awaiting a child (on a serial second bus) whose second handler has not started yet
     for typ, kind in itertools.product(['ValueError', 'TimeoutError', 'Chained', 'CancelledError'], ['raise', 'pause_raise']):
         hk, mk = KINDS[kind]
